@@ -71,6 +71,7 @@ Catalogue == {
   F("alignment", "duration-below-timestamp", {"alignment.percentage_correct_segments", "alignment.evaluate"}, VE),
   F("hierarchy", "frame-size-nonpositive", {"hierarchy.tmeasure", "hierarchy.lmeasure", "hierarchy.evaluate"}, VE),
   F("hierarchy", "frame-size-exceeds-window", {"hierarchy.tmeasure", "hierarchy.evaluate"}, VE),
+  F("hierarchy", "window-zero", {"hierarchy.tmeasure", "hierarchy.evaluate"}, VE),       \* 0 is a window smaller than any frame size, not "no window"
   F("hierarchy", "level-ends-differ", {"hierarchy.tmeasure", "hierarchy.lmeasure"}, VE),
   F("hierarchy", "level-not-start-at-0", {"hierarchy.tmeasure", "hierarchy.lmeasure"}, VE),
   F("separation", "shape-mismatch", SepFns, VE), F("separation", "too-many-dimensions", SepFns, VE),
@@ -92,7 +93,7 @@ ValidShapes(task) ==
     [] task = "key" -> {"random", "identical"}
     [] task = "pattern" -> {"random", "identical", "duplicates", "unison", "empty_est", "empty_ref", "both_empty"}
     [] task = "hierarchy" -> {"random", "identical", "single", "window-equals-frame-size", "one-frame"}
-    [] task = "alignment" -> {"random", "identical", "duplicates"}
+    [] task = "alignment" -> {"random", "identical", "duplicates", "duration-equals-last-timestamp"}
 Tasks == {"beat", "onset", "segment", "chord", "melody", "multipitch", "transcription", "transcription_velocity", "tempo", "key",
           "pattern", "hierarchy", "alignment"}
 =============================================================================
